@@ -35,7 +35,7 @@ Definition call_eqb (a b : call) : bool :=
   | RegUpd p x, RegUpd q y => Bool.eqb p q && list_eqb handle_eqb (sortH x) (sortH y)
   | RegRemove x, RegRemove y => list_eqb N.eqb (sortN x) (sortN y)
   | SrUpdate x, SrUpdate y => list_eqb pairNZ_eqb x y
-  | PlogAdd _, PlogAdd _ => true
+  | PlogAdd x, PlogAdd y => list_eqb handle_eqb (sortH x) (sortH y)   (* the logged images are compared *)
   | PlogGet, PlogGet => true
   | PlogRemove, PlogRemove => true
   | _, _ => false
@@ -45,13 +45,17 @@ Definition ev_eqb (a b : call * bool) : bool := call_eqb (fst a) (fst b) && Bool
 Definition outcome_eqb (a b : outcome) : bool :=
   match a, b with Committed, Committed | Failed, Failed | Conflicted, Conflicted => true | _, _ => false end.
 
-(* durable states are compared as sets of handles and blob ids, per-store counts, and presence of the two logs *)
+(* durable states are compared as sets of handles and blob ids, per-store counts, presence of the transaction log and the content of the priority log *)
 Definition disk_eqb (stores : list N) (a b : disk) : bool :=
   list_eqb handle_eqb (sortH (reg a)) (sortH (reg b))
   && list_eqb N.eqb (sortN (blobs a)) (sortN (blobs b))
   && forallb (fun s => Z.eqb (count_of a s) (count_of b s)) stores
   && Bool.eqb (tlog a) (tlog b)
-  && Bool.eqb (match plog a with Some _ => true | None => false end) (match plog b with Some _ => true | None => false end).
+  && match plog a, plog b with
+     | Some x, Some y => list_eqb handle_eqb (sortH x) (sortH y)   (* the logged handle images *)
+     | None, None => true
+     | _, _ => false
+     end.
 
 Record protocase := mkCase {
   pc_txn : txn;
